@@ -19,6 +19,7 @@ import (
 	"go/ast"
 	"go/token"
 	"go/types"
+	"strconv"
 	"strings"
 )
 
@@ -451,4 +452,159 @@ func (f *Flat) CanonRoot(e ast.Expr) types.Object {
 			return nil
 		}
 	}
+}
+
+// CanonPath names the storage an expression denotes as "root.field.field": the root identifier is followed through
+// the parameter bindings of inlined helpers (receiver s bound to the caller's op), and a field of a variable that
+// is defined exactly once, by a struct literal, and never assigned field-wise stands for the expression the
+// literal stores there when that is itself a variable or field (op.dst with op := storeOp{dst: f} is f).
+// Address-of and dereference are transparent. "" when the expression is not a storage path.
+func (f *Flat) CanonPath(e ast.Expr) string { return f.canonPath(e, 0) }
+
+func objID(o types.Object) string {
+	return o.Name() + "@" + strconv.Itoa(int(o.Pos()))
+}
+
+func (f *Flat) canonPath(e ast.Expr, depth int) string {
+	if depth > 12 || e == nil {
+		return ""
+	}
+	info := f.Pkg.TypesInfo
+	switch x := ast.Unparen(e).(type) {
+	case *ast.Ident:
+		o := objOf(info, x)
+		if o == nil {
+			return ""
+		}
+		if _, isVar := o.(*types.Var); !isVar {
+			return ""
+		}
+		for g := f; g != nil; g = g.Outer {
+			if a, ok := g.Alias[o]; ok {
+				if p := g.canonPath(a, depth+1); p != "" {
+					return p
+				}
+				break
+			}
+		}
+		return objID(o)
+	case *ast.StarExpr:
+		return f.canonPath(x.X, depth+1)
+	case *ast.UnaryExpr:
+		if x.Op == token.AND {
+			return f.canonPath(x.X, depth+1)
+		}
+	case *ast.SelectorExpr:
+		if sel := info.Selections[x]; sel == nil || sel.Kind() != types.FieldVal {
+			return ""
+		}
+		base := f.canonPath(x.X, depth+1)
+		if base == "" {
+			return ""
+		}
+		path := base + "." + x.Sel.Name
+		if init := f.pathInit(base, x.Sel.Name); init != nil {
+			switch ast.Unparen(init).(type) {
+			case *ast.Ident, *ast.SelectorExpr, *ast.StarExpr, *ast.UnaryExpr:
+				if p := f.canonPath(init, depth+1); p != "" {
+					return p
+				}
+			}
+		}
+		return path
+	}
+	return ""
+}
+
+// PathInit returns the expression a struct literal stores in the field `field` of the variable or field named by
+// the canonical path base, when that literal is the only definition and no statement assigns the field.
+func (f *Flat) pathInit(base, field string) ast.Expr {
+	var lit *ast.CompositeLit
+	defs := 0
+	fieldAssigned := false
+	for g := f; g != nil; g = g.Outer {
+		for _, n := range g.Nodes {
+			var lhs, rhs []ast.Expr
+			switch s := n.Ast.(type) {
+			case *ast.AssignStmt:
+				lhs, rhs = s.Lhs, s.Rhs
+			case *ast.ValueSpec:
+				for _, nm := range s.Names {
+					lhs = append(lhs, nm)
+				}
+				rhs = s.Values
+			case *ast.IncDecStmt:
+				lhs = []ast.Expr{s.X}
+			default:
+				continue
+			}
+			for i, l := range lhs {
+				lp := ""
+				switch lx := ast.Unparen(l).(type) {
+				case *ast.Ident:
+					if o := objOf(g.Pkg.TypesInfo, lx); o != nil {
+						lp = objID(o) // a definition of the variable itself, not of what a parameter is bound to
+					}
+				default:
+					lp = g.rawPath(l)
+				}
+				if lp == "" {
+					continue
+				}
+				if lp == base {
+					defs++
+					if len(rhs) == len(lhs) {
+						r := ast.Unparen(rhs[i])
+						if u, ok := r.(*ast.UnaryExpr); ok && u.Op == token.AND {
+							r = ast.Unparen(u.X)
+						}
+						if cl, ok := r.(*ast.CompositeLit); ok {
+							lit = cl
+						}
+					}
+				} else if lp == base+"."+field || strings.HasPrefix(lp, base+"."+field+".") {
+					fieldAssigned = true
+				}
+			}
+		}
+	}
+	// a nested literal: op.w with op := storeOp{w: bufWriter{w: f}}
+	if defs == 0 {
+		if i := strings.LastIndex(base, "."); i > 0 {
+			if in := f.pathInit(base[:i], base[i+1:]); in != nil {
+				if cl, ok := ast.Unparen(in).(*ast.CompositeLit); ok {
+					lit, defs = cl, 1
+				}
+			}
+		}
+	}
+	if defs != 1 || lit == nil || fieldAssigned {
+		return nil
+	}
+	for _, el := range lit.Elts {
+		if kv, ok := el.(*ast.KeyValueExpr); ok {
+			if id, ok := kv.Key.(*ast.Ident); ok && id.Name == field {
+				return kv.Value
+			}
+		}
+	}
+	return nil
+}
+
+// rawPath is CanonPath without the resolution through struct literals (the left side of an assignment names the
+// field itself).
+func (f *Flat) rawPath(e ast.Expr) string {
+	switch x := ast.Unparen(e).(type) {
+	case *ast.Ident:
+		return f.canonPath(x, 0)
+	case *ast.StarExpr:
+		return f.rawPath(x.X)
+	case *ast.SelectorExpr:
+		if b := f.rawPath(x.X); b != "" {
+			return b + "." + x.Sel.Name
+		}
+	case *ast.IndexExpr:
+		return f.rawPath(x.X)
+	}
+	return ""
 }
